@@ -15,20 +15,43 @@ static Db* makeDb()
   for (double v : V) tab.push_back(v);
   return Db::createFromSamples(8, ELoadBy::COLUMN, tab, {"x1", "x2", "z1"}, {"x1", "x2", "z1"}, false);
 }
+// "sectors" layout: 60 samples, sample 0 in the centre and sample 1 on an edge (both with more candidates than nmaxi,
+// sectors filled differently)
+static Db* makeDbSectors()
+{
+  const int N = 60;
+  VectorDouble x(N), y(N), v(N);
+  unsigned long long st = 88172645463325252ULL;
+  auto rnd = [&st]() { st ^= st << 13; st ^= st >> 7; st ^= st << 17; return (double)(st % 1000003ULL) / 1000003.0; };
+  for (int i = 0; i < N; i++) { x[i] = 3. * rnd(); y[i] = 3. * rnd(); v[i] = 2. * rnd() - 1.; }
+  x[0] = 1.5; y[0] = 1.5; x[1] = 0.3; y[1] = 1.5;   // centre, and the middle of the left edge
+  VectorDouble tab;
+  for (double a : x) tab.push_back(a);
+  for (double a : y) tab.push_back(a);
+  for (double a : v) tab.push_back(a);
+  return Db::createFromSamples(N, ELoadBy::COLUMN, tab, {"x1", "x2", "z1"}, {"x1", "x2", "z1"}, false);
+}
+static bool G_SECT = false;
+static NeighMoving* makeNeigh(int nmaxi)
+{
+  if (G_SECT) return NeighMoving::create(false, 4 * nmaxi, 1.6, 1, 8);   // no cap per sector: nmaxi alone binds
+  return NeighMoving::create(false, nmaxi, 1.9);
+}
 struct Par { int nmaxi = 3; bool xvalid = false; bool colcok = false; };
 
 static void applyPar(NeighMoving* n, const Par& p, Db* db)
 {
-  n->setNMaxi(p.nmaxi);
+  n->setNMaxi(G_SECT ? 4 * p.nmaxi : p.nmaxi);
   n->setFlagXvalid(p.xvalid);
   n->setRankColCok(p.colcok ? VectorInt{db->getUID("z1")} : VectorInt());
 }
 
 Value run(const Value& script)
 {
-  Db* db = makeDb();
+  G_SECT = script.has("layout") && script.at("layout").s() == "sectors";
+  Db* db = G_SECT ? makeDbSectors() : makeDb();
   Par par;
-  NeighMoving* n = NeighMoving::create(false, par.nmaxi, 1.9);
+  NeighMoving* n = makeNeigh(par.nmaxi);
   n->attach(db, db);
   Value obs = Value::array();
   int step = 0;
@@ -40,7 +63,7 @@ Value run(const Value& script)
     {
       int t = h.at("t").i();
       VectorInt r1; n->select(t, r1);
-      NeighMoving* f = NeighMoving::create(false, par.nmaxi, 1.9);
+      NeighMoving* f = makeNeigh(par.nmaxi);
       applyPar(f, par, db);
       f->attach(db, db);
       VectorInt r2; f->select(t, r2);
@@ -53,7 +76,7 @@ Value run(const Value& script)
       o["equal"] = Value(a == b);
       obs.push(o);
     }
-    else if (op == "setNMaxi") { par.nmaxi = h.at("v").i(); n->setNMaxi(par.nmaxi); }
+    else if (op == "setNMaxi") { par.nmaxi = h.at("v").i(); n->setNMaxi(G_SECT ? 4 * par.nmaxi : par.nmaxi); }
     else if (op == "setFlagXvalid") { par.xvalid = h.at("v").boolean(); n->setFlagXvalid(par.xvalid); }
     else if (op == "setRankColCok") { par.colcok = h.at("v").boolean(); n->setRankColCok(par.colcok ? VectorInt{db->getUID("z1")} : VectorInt()); }
     else if (op == "attach") n->attach(db, db);
